@@ -647,6 +647,9 @@ func (s *impl) processIncoming(p mqttp.IFace) error {
 
 	if err != nil {
 		s.onStop.Do(func() {
+			// the peer may have stopped reading (see onConnectionCloseStage2): the writer is not waited for for ever
+			_ = s.conn.SetWriteDeadline(time.Now().Add(closeWriteTimeout))
+
 			s.SignalOffline()
 
 			s.tx.stop()
@@ -700,15 +703,17 @@ func (s *impl) onConnectionCloseStage2(status error) {
 
 	var err error
 
+	// a peer that has stopped reading keeps the writer blocked in its Write: without a limit
+	// tx.stop() below (and the DISCONNECT after it) would wait for that peer for ever, and with
+	// it a take-over of the client id, the keep-alive expiry, the server shutdown. The limit is
+	// set whoever has stopped the transmitter: after a DISCONNECT or a protocol error of the
+	// client that was the reader, and the DISCONNECT below is still to be written
+	_ = s.conn.SetWriteDeadline(time.Now().Add(closeWriteTimeout))
+
 	// clean up transmitter to allow send disconnect command to client if needed
 	s.onStop.Do(func() {
 		// gracefully shutdown receiver by setting some small ReadDeadline
 		_ = s.conn.SetReadDeadline(time.Now().Add(time.Microsecond))
-
-		// a peer that has stopped reading keeps the writer blocked in its Write: without a limit
-		// tx.stop() below (and the DISCONNECT after it) would wait for that peer for ever, and with
-		// it a take-over of the client id, the keep-alive expiry, the server shutdown
-		_ = s.conn.SetWriteDeadline(time.Now().Add(closeWriteTimeout))
 
 		s.rx.shutdown()
 
